@@ -165,9 +165,9 @@ static void vh_fork_setup(void) {
 	if (ftruncate(vh_mfd_out, 0) || ftruncate(vh_mfd_err, 0)) {}
 	lseek(vh_mfd_out, 0, SEEK_SET); lseek(vh_mfd_err, 0, SEEK_SET);
 }
-static char *vh_slurp(int fd, size_t *n) {
-	off_t sz = lseek(fd, 0, SEEK_END); if (sz < 0) sz = 0; if (sz > (1 << 22)) sz = 1 << 22;
-	char *b = (char *)malloc(sz + 1); if (pread(fd, b, sz, 0) != sz) {} b[sz] = 0; *n = sz; return b;
+static char *vh_slurp(int fd, size_t *n) { /* the TAIL of the stream (a crash report comes last, after any amount of diagnostics) */
+	off_t sz = lseek(fd, 0, SEEK_END), off = 0; if (sz < 0) sz = 0; if (sz > (1 << 20)) { off = sz - (1 << 20); sz = 1 << 20; }
+	char *b = (char *)malloc(sz + 1); if (pread(fd, b, sz, off) != sz) {} for (off_t i = 0; i < sz; i++) if (!b[i]) b[i] = ' '; b[sz] = 0; *n = sz; return b;
 }
 static void vh_obs_free(vh_obs_t *o) { free(o->out); free(o->err); o->out = o->err = NULL; }
 /* resfd: child may write a result blob to fd 3 (a third memfd) — exposed through vh_res */
@@ -237,7 +237,7 @@ static void vh_guarded(const char *prefix, void (*body)(void), int case_timeout_
 		if (vh_prog->index < 0) { printf("HARNESS-ERROR driver died outside any case: %s\n%.600s\n", what, err); exit(2); }
 		char key[300]; snprintf(key, sizeof key, "%s:crash:%s", prefix, what);
 		snprintf(vh_block, sizeof vh_block, "%s", vh_prog->block); vh_index = vh_prog->index;
-		char *tail = err + (el > 900 ? 0 : 0); char esc[700]; size_t k = 0; for (size_t i = 0; tail[i] && k < sizeof esc - 2; i++) { char c = tail[i]; if (c == '"' || c == '\\') c = '\''; if (c == '\n') c = '|'; if ((unsigned char)c < 32) c = ' '; esc[k++] = c; } esc[k] = 0;
+		const char *tail = strstr(err, "ERROR: AddressSanitizer"); if (!tail) tail = strstr(err, "runtime error: "); if (!tail) tail = strstr(err, "Assertion"); if (!tail) tail = el > 600 ? err + el - 600 : err; char esc[700]; size_t k = 0; for (size_t i = 0; tail[i] && k < sizeof esc - 2; i++) { char c = tail[i]; if (c == '"' || c == '\\') c = '\''; if (c == '\n') c = '|'; if ((unsigned char)c < 32) c = ' '; esc[k++] = c; } esc[k] = 0;
 		vh_viol(key, "\"crash\":\"%s\",\"report\":\"%s\"", what, esc);
 		printf("VIOLCOUNT %s\t1\n", key);
 		vh_block[0] = 0; free(err);
